@@ -206,8 +206,13 @@ def expected_unary(base, a):
     return m.get(base)
 
 
-def expected_binary(base, l, r):
+def expected_binary(base, l, r, scalar=False):
+    """`scalar`: the operands are plain f32 values.  There `x.min(y)` / `x.max(y)` is std's NaN-*ignoring* min / max,
+    while every evaluator's min / max propagates NaN (`min_choice(..).0`); for Interval and Grad operands `.min()` is
+    the type's own NaN-aware method"""
     def choice(n):
+        if scalar and n in ("min", "max"):
+            return [("val", ("m", n + "_choice", l, r))]
         return [("val", ("m", n + "_choice", l, r)), ("m", n, l, r)]
 
     m = {
